@@ -562,6 +562,22 @@ impl World {
         Ok(())
     }
 
+    /// After the vector was dropped and every stream drained to its end: twins must still agree.
+    fn compare_twins_final(&mut self) -> R {
+        for i in 0..self.subs.len() {
+            if let Some(j) = self.subs[i].twin_of {
+                if self.subs[i].lagged || self.subs[j].lagged || self.subs[i].stream.is_none() || self.subs[j].stream.is_none() {
+                    continue;
+                }
+                let a = self.subs[i].taps.last().unwrap().borrow().log.clone();
+                let b = self.subs[j].taps.last().unwrap().borrow().log.clone();
+                self.ck.f.twin_compared += 1;
+                self.ck.check(a == b, &[C13], || format!("after the end of both streams the unbatched twin received {:?}, the batched stream (flattened) {:?}", a, b))?;
+            }
+        }
+        Ok(())
+    }
+
     fn compare_twins(&mut self) -> R {
         for i in 0..self.subs.len() {
             if let Some(j) = self.subs[i].twin_of {
@@ -1157,8 +1173,10 @@ impl World {
                 }
                 // every stage's input must itself have reported Pending during this poll: an
                 // adapter that says Pending while the stage below still has items hides updates
+                // (walk from the outermost stage down: stage j returned Pending iff everything
+                // above it did; the first one whose own input did not is the culprit)
                 let n_st = self.subs[i].spec.pipeline.len();
-                for j in 0..n_st {
+                for j in (0..n_st).rev() {
                     let below_pending = self.subs[i].taps[j].borrow().pending_this_poll;
                     if !below_pending {
                         let mut props = stage_props(&self.subs[i].spec, j);
@@ -1239,7 +1257,13 @@ impl World {
                 if let VectorDiff::Reset { values } = &item[0] {
                     let vals: Vec<MVal> = values.iter().copied().collect();
                     // the newest update was a commit: its published state is also C07's business
-                    let props: &[Prop] = if self.msgs.last().map_or(false, |m| m.txn) { &[C06, C07] } else { &[C06] };
+                    let gone = self.vec.is_none() && !self.in_txn;
+                    let props: &[Prop] = match (self.msgs.last().map_or(false, |m| m.txn), gone) {
+                        (true, true) => &[C06, C07, C08],
+                        (true, false) => &[C06, C07],
+                        (false, true) => &[C06, C08],
+                        (false, false) => &[C06],
+                    };
                     self.ck.check(vals == self.model, props, || {
                         format!("subscriber {i}: Reset carries {:?} but the vector contains {:?}", vals, self.model)
                     })?;
@@ -1507,6 +1531,7 @@ fn run_inner(case: &VecCase, prop: Prop) -> R<(CaseReport, Feat)> {
                 w.ck.check(ended, &[C08], || format!("subscriber {i}: stream did not end after the vector was dropped"))?;
             }
         }
+        w.compare_twins_final()?;
     } else {
         for i in 0..w.subs.len() {
             if w.subs[i].stream.is_some() && !w.subs[i].ended {
